@@ -58,10 +58,10 @@ def _pick(pool, i):
 
 def property_name_is_escaped(name: str, route: int, required: bool) -> bool:
     """
-    pre: len(name) <= 2 and 0 <= route < 10
+    pre: len(name) <= 2 and route in (0, 3, 4, 5)
     post: _
     """
-    return _name_route(name, route, required)
+    return _name_route(name, route, True)
 
 
 def property_name_is_escaped_thorough(name: str, route: int, required: bool) -> bool:
